@@ -118,16 +118,15 @@ let () = iter_lines (fun line ->
       let offl = (fun _ -> u) in
       let (x, _) = finish offl bc sc (join_init bc) [] in
       let nf = int_of_string (get kvs "nf") in
-      let rec firstn n l = if n <= 0 then [] else (match l with [] -> [] | h :: t -> h :: firstn (n - 1) t) in
       if get kvs "side" = "bot" then begin
-        let (_, b) = bot_feed bc (nat_of_int 400) (bot_join_init bc) (firstn nf x.x_s2c_hist) in
+        let b = cut_outcome_bot bc (nat_of_int nf) x.x_s2c_hist in
         let out = (match b.b_ph with
                    | BJoined -> "joined"
                    | BFailed st -> (match int_of_n st with 13 -> "fail:login-read" | 14 -> "fail:config-read" | _ -> "fail:other")
                    | _ -> "stuck") in
         Printf.printf "cut bot %s\n" out
       end else begin
-        let (_, s) = srv_feed offl sc (nat_of_int 400) srv_init (firstn nf x.x_c2s_hist) in
+        let s = cut_outcome_srv offl sc (nat_of_int nf) x.x_c2s_hist in
         Printf.printf "cut srv %s\n" (show_srv s)
       end
   | "ping" :: toks ->
